@@ -68,7 +68,7 @@ Module JnP.
 Import Jn.
 
 Record Inv (s : st) : Prop := {
-  j_link : forall j c, jpc s j = Some c -> joiner s c = Some j /\ alive s c = true;
+  j_link : forall j c, jpc s j = Some c -> joiner s c = Some j /\ alive s c = true /\ ts s c <> TNone;
   j_done : forall j c, jpc s j = Some c -> ts s c = TDone -> woken s j = true;
   j_handle : forall c, handle s c = true -> alive s c = true /\ ts s c <> TNone;
   j_fresh : forall c, ts s c = TNone -> alive s c = true;
@@ -85,58 +85,132 @@ Ltac upd_cases :=
          | H : context [Nat.eqb ?a ?b] |- _ => destruct (Nat.eqb_spec a b); subst
          end.
 
+Ltac jn_auto :=
+  intros; upd_cases;
+  repeat match goal with H : Some _ = Some _ |- _ => inv H end;
+  simpl in *; try contradiction; try discriminate; try congruence; eauto.
+
 Lemma join_head_inv s j c :
   Inv s -> (forall j', jpc s j' = Some c -> j' = j) -> alive s c = true -> ts s c <> TNone ->
   Inv (join_head s j c).
 Proof.
   intros I U A NN. unfold join_head, after. destruct (is_done (ts s c)) eqn:D.
-  - destruct I. constructor; simpl; rewrite ?D.
-    + intros j' c' H. upd_cases; try discriminate. auto.
-    + intros j' c' H T. upd_cases; try discriminate. eauto.
-    + intros c' H. upd_cases; [discriminate|auto].
-    + assumption.
-    + constructor; [reflexivity|assumption].
+  - destruct I. constructor; simpl; rewrite ?D; try solve [jn_auto].
+    constructor; [reflexivity|assumption].
   - assert (ND : ts s c <> TDone) by (intro E; rewrite E in D; discriminate).
-    destruct I. constructor; simpl; auto.
-    + intros j' c' H. upd_cases; try (inv H); auto; try congruence;
-        try solve [match goal with X : jpc s _ = Some c |- _ => specialize (U _ X); congruence end].
-    + intros j' c' H T. upd_cases; try (inv H); try contradiction; eauto.
+    destruct I. constructor; simpl; auto; try solve [jn_auto].
+    intros j' c' H. upd_cases; try (inv H); auto; try congruence;
+      try solve [match goal with X : jpc s _ = Some c |- _ => specialize (U _ X); congruence end].
 Qed.
 
 Lemma step_inv s e s' : Inv s -> step s e = Some s' -> Inv s'.
 Proof.
   intros I H. destruct e as [p c|c|j c|j|j c]; simpl in H.
-  - destruct (is_none (ts s c) && _ && _) eqn:G; [|discriminate]. inv H. boolp.
+  - (* spawn *)
+    destruct (is_none (ts s c) && _ && _) eqn:G; [|discriminate]. inv H. boolp.
     assert (TN : ts s c = TNone) by (destruct (ts s c); simpl in *; congruence).
     destruct I. constructor; simpl; auto.
-    + intros j c' Hj T. upd_cases; [discriminate|eauto].
+    + intros j c' Hj. destruct (j_link0 _ _ Hj) as [L [A N]]. upd_cases; [congruence|auto].
+    + intros j c' Hj T. destruct (j_link0 _ _ Hj) as [L [A N]]. upd_cases; [discriminate|eauto].
     + intros c' Hc. upd_cases; [split; [auto|discriminate]|auto].
     + intros c' Hc. upd_cases; [discriminate|auto].
-  - destruct (ts s c) eqn:T; try discriminate. destruct (jpc s c) eqn:J; [discriminate|]. inv H.
+  - (* exit *)
+    destruct (ts s c) eqn:T; try discriminate. destruct (jpc s c) eqn:J; [discriminate|]. inv H.
     destruct I. constructor; simpl; auto.
-    + intros j c' Hj T'. destruct (j_link0 _ _ Hj) as [L A]. upd_cases.
+    + intros j c' Hj. destruct (j_link0 _ _ Hj) as [L [A N]]. upd_cases; [split; [auto|split; [auto|discriminate]]|auto].
+    + intros j c' Hj T'. destruct (j_link0 _ _ Hj) as [L [A N]]. upd_cases.
       * rewrite L, A. apply upd_eq.
       * destruct (joiner s c) as [j'|]; [destruct (alive s c)|]; eauto. upd_cases; eauto.
     + intros c' Hc. destruct (j_handle0 _ Hc). upd_cases; [split; [auto|discriminate]|auto].
     + intros c' Hc. upd_cases; [discriminate|auto].
-  - destruct (handle s c && _ && _ && _ && _ && _) eqn:G; [|discriminate]. inv H. boolp.
+  - (* join *)
+    destruct (handle s c && _ && _ && _ && _ && _) eqn:G; [|discriminate]. inv H. boolp.
     destruct (j_handle s I c) as [A NN]; [assumption|].
     apply join_head_inv; auto.
     intros j' Hj. destruct (j_link s I _ _ Hj) as [L _]. destruct (joiner s c); simpl in *; congruence.
-  - destruct (jpc s j) as [c|] eqn:J; [|discriminate]. destruct (woken s j); [|discriminate]. inv H.
-    destruct (j_link s I _ _ J) as [L A].
+  - (* resumed inside join *)
+    destruct (jpc s j) as [c|] eqn:J; [|discriminate]. destruct (woken s j); [|discriminate]. inv H.
+    destruct (j_link s I _ _ J) as [L [A N]].
     apply join_head_inv; auto.
-    + intros j' Hj. destruct (j_link s I _ _ Hj) as [L' _]. congruence.
-    + intro TN. admit.
-  - destruct (handle s c && _ && _) eqn:G; [|discriminate]. inv H. boolp.
+    intros j' Hj. destruct (j_link s I _ _ Hj) as [L' _]. congruence.
+  - (* detach *)
+    destruct (handle s c && _ && _) eqn:G; [|discriminate]. inv H. boolp.
     destruct (j_handle s I c) as [A NN]; [assumption|].
+    assert (NJ : forall j', jpc s j' <> Some c).
+    { intros j' Hj. destruct (j_link s I _ _ Hj) as [L _]. destruct (joiner s c); simpl in *; congruence. }
     unfold after. destruct I. constructor; simpl; auto.
-    + intros j' c' Hj. destruct (j_link0 _ _ Hj) as [L A']. split; [assumption|].
-      destruct (is_done (ts s c)); [assumption|]. upd_cases; [|assumption].
-      destruct (joiner s c'); simpl in *; congruence.
+    + intros j' c' Hj. destruct (j_link0 _ _ Hj) as [L [A' N]]. split; [assumption|]. split; [|assumption].
+      destruct (is_done (ts s c)); [assumption|]. upd_cases; [exfalso; eapply NJ; eauto|assumption].
     + intros c' Hc. upd_cases; [discriminate|]. destruct (j_handle0 _ Hc). split; [|assumption].
       destruct (is_done (ts s c)); [assumption|]. upd_cases; [contradiction|assumption].
     + intros c' Hc. destruct (is_done (ts s c)); [auto|]. upd_cases; [contradiction|auto].
-Admitted.
+Qed.
+
+Lemma run_inv tr : forall s s', Inv s -> run s tr = Some s' -> Inv s'.
+Proof.
+  induction tr as [|e tr IH]; simpl; intros s s' I H; [inv H; assumption|].
+  destruct (step s e) eqn:E; [|discriminate]. eapply IH; [|exact H]. eapply step_inv; eauto.
+Qed.
+
+(* join_after_exit: every join that returned, returned after the thread function had finished *)
+Lemma join_after_exit root tr s : run (init root) tr = Some s -> Forall (fun e => snd e = true) (log s).
+Proof. intros H. apply j_log. eapply run_inv; eauto. apply inv_init. Qed.
+
+(* ... and a joiner of a finished thread is always woken (no lost wake-up in join) *)
+Lemma joiner_woken root tr s j c :
+  run (init root) tr = Some s -> jpc s j = Some c -> ts s c = TDone -> woken s j = true.
+Proof. intros H. apply j_done. eapply run_inv; eauto. apply inv_init. Qed.
 
 End JnP.
+
+(* ================================================================== thread-local pointers are per fiber *)
+Module TlP.
+Import Tl.
+
+Lemma get_set_same s f x v : get (step s (ESet f x v)) f x = v.
+Proof. unfold get. simpl. rewrite !upd_eq. reflexivity. Qed.
+
+Lemma get_set_other_fiber s f g x y v : g <> f -> get (step s (ESet g y v)) f x = get s f x.
+Proof. intros H. unfold get. simpl. rewrite upd_neq; auto. Qed.
+
+Lemma get_set_other_var s f x y v : y <> x -> get (step s (ESet f y v)) f x = get s f x.
+Proof. intros H. unfold get. simpl. rewrite upd_eq. rewrite upd_neq; auto. Qed.
+
+(* what fiber f reads, as a function of ITS OWN stores only *)
+Definition mine (f : fid) (e : ev) : bool :=
+  match e with ESet g _ _ => Nat.eqb g f | EGet g _ => Nat.eqb g f | EDefault _ _ => true end.
+
+Definition reads_of (f : fid) (s : st) : list (nat * nat) :=
+  map (fun r => (snd (fst r), snd r)) (filter (fun r => Nat.eqb (fst (fst r)) f) (reads s)).
+
+Definition agree (f : fid) (a b : st) : Prop :=
+  tls a f = tls b f /\ dflt a = dflt b /\ reads_of f a = reads_of f b.
+
+Lemma agree_step_mine f a b e : agree f a b -> mine f e = true -> agree f (step a e) (step b e).
+Proof.
+  intros [T [D R]] M. destruct e as [g x v|g x|x v]; simpl in M; boolp; subst; unfold agree, reads_of; simpl.
+  - rewrite !upd_eq, T. auto.
+  - rewrite Nat.eqb_refl. simpl. unfold get. rewrite T, D. unfold reads_of in R. rewrite R. auto.
+  - rewrite D. auto.
+Qed.
+
+Lemma agree_step_other f a b e : agree f a b -> mine f e = false -> agree f (step a e) b.
+Proof.
+  intros [T [D R]] M. destruct e as [g x v|g x|x v]; simpl in M; boolp; try discriminate; unfold agree, reads_of; simpl.
+  - rewrite upd_neq; auto.
+  - apply Nat.eqb_neq in M. rewrite M. auto.
+Qed.
+
+(* tls_per_fiber: erasing every store and read of the other fibers leaves what f reads unchanged *)
+Lemma per_fiber f tr : forall a b, agree f a b -> agree f (run a tr) (run b (filter (mine f) tr)).
+Proof.
+  induction tr as [|e tr IH]; simpl; intros a b A; [assumption|].
+  destruct (mine f e) eqn:M; simpl.
+  - apply IH. apply agree_step_mine; assumption.
+  - apply IH. apply agree_step_other; assumption.
+Qed.
+
+Lemma tls_per_fiber f tr : reads_of f (run init tr) = reads_of f (run init (filter (mine f) tr)).
+Proof. apply (per_fiber f tr init init). repeat split. Qed.
+
+End TlP.
